@@ -122,10 +122,8 @@ def run(rep: Report, repo: Repo, tier: str) -> None:
                 target = ws[0]
                 vals = c.args[1:]
             else:
-                continue
-            if target not in opt_vars:
-                continue
-            for v in vals:
+                target, vals = None, []
+            for v in (vals if target in opt_vars else []):
                 if v.text in ("-r", "--recursive"):
                     r_sites.append((c, anc))
                 if "ARGN" in v.text or re.search(r"ARGV[2-9]?\b", v.text):
